@@ -259,10 +259,24 @@ def _strip_doc_and_annotations(fn):
 class Scope:
     """where helpers are looked up: the class body and the module"""
 
-    def __init__(self, module, cls=None, is_new=None):
+    def __init__(self, module, cls=None, is_new=None, ref_idents=None):
         self.module = module
         self.cls = cls
         self.is_new = is_new or (lambda cls_name, fn_name: False)
+        # identifiers the reference version of the file mentions (None: this
+        # is the reference)
+        self.ref_idents = ref_idents
+
+    def new_constant(self, expr):
+        """literal value of a class / module constant that the reference
+        tree does not mention"""
+        if self.ref_idents is None:
+            return None
+        nm = expr.id if isinstance(expr, ast.Name) else (
+            expr.attr if isinstance(expr, ast.Attribute) else None)
+        if nm is None or nm in self.ref_idents:
+            return None
+        return self.constant(expr)
 
     def class_node(self, name=None):
         name = name or self.cls
@@ -331,6 +345,11 @@ class Scope:
 
 def _is_literal(v):
     if isinstance(v, ast.Constant):
+        return True
+    if isinstance(v, ast.Name) and v.id[:1].isupper():
+        return True           # a class named in a table
+    if isinstance(v, ast.Attribute) and isinstance(v.value, ast.Name) and \
+            v.value.id in ('np', 'numpy', 'math'):
         return True
     if isinstance(v, (ast.Tuple, ast.List)):
         return all(_is_literal(x) for x in v.elts)
@@ -568,7 +587,8 @@ def _find_helper_call(stmt_value, scope, local_defs, conditional=False):
                 if m is not None and scope.is_new(cn, f.attr):
                     return c, m, ast.Name(base, ast.Load())
             elif scope.class_node(base) is not None:
-                sub = Scope(scope.module, base, scope.is_new)
+                sub = Scope(scope.module, base, scope.is_new,
+                            scope.ref_idents)
                 cn, m = sub.method(f.attr)
                 if m is not None and scope.is_new(cn, f.attr):
                     deco = {ast.unparse(d) for d in m.decorator_list}
@@ -894,6 +914,48 @@ def unroll_tables(fn, scope, limit=24):
                     setattr(s, fld, block(b))
             for h in getattr(s, 'handlers', []) or []:
                 h.body = block(h.body)
+            if isinstance(s, ast.For) and len(s.body) == 1 and isinstance(
+                    s.body[0], ast.If) and not s.body[0].orelse and \
+                    isinstance(s.body[0].body[-1], ast.Break) and not any(
+                        isinstance(x, (ast.Break, ast.Continue))
+                        for st in s.body[0].body[:-1]
+                        for x in ast.walk(st)):
+                # for item in TABLE: if cond(item): A(item); break
+                # else: E          ->   if cond(i1): A(i1) elif ... else: E
+                items = _table_items(s.iter, scope)
+                tg = s.target
+                if items is not None and len(items) <= limit and is_pure(
+                        s.body[0].test):
+                    chain = list(s.orelse)
+                    ok = True
+                    for it in reversed(items):
+                        m = {}
+                        if isinstance(tg, ast.Name):
+                            m[tg.id] = it
+                        elif isinstance(tg, (ast.Tuple, ast.List)) and \
+                                isinstance(it, (ast.Tuple, ast.List)) and \
+                                len(tg.elts) == len(it.elts) and all(
+                                    isinstance(x, ast.Name) for x in tg.elts):
+                            for x, y in zip(tg.elts, it.elts):
+                                m[x.id] = y
+                        else:
+                            ok = False
+                            break
+                        if set(m) & _names_stored(
+                                ast.Module(s.body[0].body, [])):
+                            ok = False
+                            break
+                        test = subst(copy.deepcopy(s.body[0].test), m)
+                        arm = [subst(copy.deepcopy(x), m)
+                               for x in s.body[0].body[:-1]] or [ast.Pass()]
+                        chain = [ast.If(test, arm, chain)]
+                    # the loop variable keeps the matching item afterwards:
+                    # only when nothing reads it after the loop
+                    after = body[body.index(s) + 1:]
+                    if ok and not any(_loads_of(n_, after)
+                                      for n_ in _names_stored(tg)):
+                        out += block(chain)
+                        continue
             if isinstance(s, ast.For) and not s.orelse and not any(
                     isinstance(x, (ast.Break, ast.Continue))
                     for x in ast.walk(s)):
@@ -928,6 +990,23 @@ def unroll_tables(fn, scope, limit=24):
             out.append(s)
         return out
     fn.body = block(fn.body)
+
+    class K(ast.NodeTransformer):
+        def visit_Name(self, n):
+            if isinstance(n.ctx, ast.Load):
+                v = scope.new_constant(n)
+                if v is not None and n.id not in stored:
+                    return copy.deepcopy(v)
+            return n
+
+        def visit_Attribute(self, n):
+            if isinstance(n.ctx, ast.Load):
+                v = scope.new_constant(n)
+                if v is not None:
+                    return copy.deepcopy(v)
+            return self.generic_visit(n)
+    stored = _names_stored(fn)
+    K().visit(fn)
     _ConstFold().visit(fn)
     return fn
 
@@ -1031,8 +1110,7 @@ def sink_tails(fn, cap=600):
         for i, s in enumerate(body):
             if isinstance(s, ast.For):
                 s.body = block(s.body)
-                if s.orelse:
-                    raise NotNormalisable('for-else')
+                s.orelse = block(s.orelse)
                 out.append(s)
                 continue
             if isinstance(s, ast.With):
@@ -1552,6 +1630,8 @@ def forward_substitute(fn):
                 inner_real = real | lv
                 s.body = block(s.body, dict(env), inner_real)
                 real = inner_real
+                if s.orelse:
+                    s.orelse = block(s.orelse, dict(env), real)
                 out.append(s)
                 continue
             if isinstance(s, (ast.Pass,)):
